@@ -475,7 +475,7 @@ func run(c *mon.Ctx) {
 		p := g.Path(1+r.Intn(5), jpspec.AllKinds, true)
 		if i%7 == 0 {
 			p = append(jpref.Path{jpspec.At()}, p...)
-			if p[1].Kind == "root" {
+			if p[1].Kind == "root" || p[1].Kind == "at" {
 				p = p[1:]
 			}
 		}
